@@ -1,7 +1,7 @@
 (* C11 — request checking work is polynomial in the document size.
    Cost model = number of selection visits (tied to the code by the cfg hook
    counters, compared for equality on every correspondence case). *)
-From AG Require Import LimitsCheck LimitsProofs.
+From AG Require Import LimitsCheck LimitsProofs RuleCost RuleCostProofs.
 Open Scope N_scope.
 
 (* the Inline-mode validation pass visits exactly the selections of the
@@ -35,3 +35,77 @@ Check C11_fanout_refuted : forall L,
 Print Assumptions C11_visits_are_inlined_size.
 Print Assumptions C11_fanout_refuted.
 Print Assumptions C11_default_config.
+
+(* ---- the validation rules' own fragment-graph walks (RuleCost.v) -------------
+   Model of the five cfg-hook counters RULE_STEPS[0..4] (compared for equality
+   with the code on every correspondence case of stream RULE).  Size =
+   doc_size d = selections written in the document, fragment definitions
+   included; doc_spreads d = fragment spreads among them; doc_nops d =
+   operations.  Every statement is for EVERY document, schema and fuel (fuel
+   exhaustion is not a number, so it is not a counter value). *)
+
+(* [0] OverlappingFieldsCanBeMerged: one `find` per entered selection set, each
+   at most (the set + every fragment body once) *)
+Theorem C11_overlap_steps_poly : forall Sch d n c,
+    overlap_steps Sch d n = Ok c ->
+    c <= doc_nsets Sch d * (2 * doc_size d) /\ doc_nsets Sch d <= doc_size d /\
+    c <= 2 * doc_size d * doc_size d.
+Proof. exact c11_overlap_steps. Qed.
+
+(* [1] NoFragmentCycles: every fragment is entered once *)
+Theorem C11_cycle_steps_linear : forall Sch d n c,
+    cycle_steps Sch d n = Ok c -> c <= doc_spreads d.
+Proof. exact c11_cycle_steps. Qed.
+
+(* [2] [3] NoUndefinedVariables / NoUnusedVariables: one memoised walk per operation *)
+Theorem C11_vars_steps_poly : forall Sch d n c,
+    vars_steps Sch d n = Ok c -> c <= doc_nops d * (1 + doc_spreads d).
+Proof. exact c11_vars_steps. Qed.
+
+(* [4] NoUnusedFragments *)
+Theorem C11_unused_steps_poly : forall Sch d n c,
+    unused_steps Sch d n = Ok c -> c <= doc_nops d + (doc_nops d + 1) * doc_spreads d.
+Proof. exact c11_unused_steps. Qed.
+
+Theorem C11_unused_steps_linear : forall Sch d n c,
+    NoDup (map op_name (doc_ops d)) ->
+    unused_steps Sch d n = Ok c -> c <= doc_nops d + doc_spreads d.
+Proof. exact c11_unused_steps_linear. Qed.
+
+Theorem C11_spreads_le_size : forall d, doc_spreads d <= doc_size d.
+Proof. exact doc_spreads_le_size. Qed.
+
+(* all five counters are within the polynomials the check compares against
+   (rule_bounds d = [2s^2; s; o(1+s); o(1+s); o+(o+1)s], s = size, o = operations) *)
+Theorem C11_rule_steps_within_bounds : forall Sch d n m,
+    rule_steps Sch d n = Ok m -> within m (rule_bounds d) = true.
+Proof. exact c11_rule_steps_within. Qed.
+
+(* a case judged 0 by the verdict function has its OBSERVED counters within the bounds *)
+Theorem C11_rule_check_sound : forall Sch d nl nr lim fast steps,
+    check_c11r Sch d nl nr lim fast steps = 0 -> within steps (rule_bounds d) = true.
+Proof. exact c11_check_sound. Qed.
+
+(* non-vacuity: the UNUSED fan-out chain F_k { ...F_{k-1} ...F_{k-1} } of length
+   3 and 14 evaluates (fuel suffices) to small counters; 2^14 would exceed the bound *)
+Theorem C11_rule_steps_nonvacuous :
+    doc_size (chain_doc 3) = 8 /\
+    rule_steps chain_schema (chain_doc 3) (rule_fuel (chain_doc 3)) = Ok [17; 6; 1; 1; 1] /\
+    doc_size (chain_doc 14) = 30 /\
+    rule_steps chain_schema (chain_doc 14) (rule_fuel (chain_doc 14)) = Ok [226; 28; 1; 1; 1] /\
+    rule_bounds (chain_doc 14) = [1800; 30; 31; 31; 61] /\
+    2 ^ 14 > 1800.
+Proof. exact c11_chain_nonvacuous. Qed.
+
+Check C11_rule_steps_within_bounds : forall Sch d n m,
+    rule_steps Sch d n = Ok m -> within m (rule_bounds d) = true.
+
+Print Assumptions C11_overlap_steps_poly.
+Print Assumptions C11_cycle_steps_linear.
+Print Assumptions C11_vars_steps_poly.
+Print Assumptions C11_unused_steps_poly.
+Print Assumptions C11_unused_steps_linear.
+Print Assumptions C11_spreads_le_size.
+Print Assumptions C11_rule_steps_within_bounds.
+Print Assumptions C11_rule_check_sound.
+Print Assumptions C11_rule_steps_nonvacuous.
